@@ -93,3 +93,14 @@ pub fn block_until_readable(fd: i32) {
     sim::block_fd(fd);
     sim::ev_pipe_acquire();
 }
+
+/// A system call the library makes inside a delivery or a mutator (interposed `sigprocmask`,
+/// `raise`): a scheduling point, hence also a point where another signal may arrive.
+pub fn syscall_point() {
+    if !sim::on() {
+        return;
+    }
+    sim::sp(sim::EV_SYSCALL, 0);
+    // the process may be about to die here (re-raised signal): keep the counters current
+    sim::flush();
+}
